@@ -14,11 +14,14 @@ def run(tier: str, seed: int):
         serial = list(F.fam_shapes(1, 3, batch=1)) + list(F.fam_variants(2))
         rule = ('all DAG shapes n<=4 x requested subsets x pre-cached subsets (batch<=2); n<=3 x placements x '
                 'duplication (shared vs fresh equal instances, same task requested twice / nested) x types x request variants')
-        e3c = list(F.fam_e3(F.fam_shapes(1, 3), workers=(2,), liveness=False)) + list(F.fam_e3(F.fam_variants(2), workers=(2,), liveness=False))
+        e3c = (list(F.fam_e3(F.fam_shapes(1, 3), workers=(2,), liveness=False)) + list(F.fam_e3(F.fam_variants(2), workers=(2,), liveness=False))
+               # a task whose worker dies is not quietly executed a second time
+               + list(F.fam_e3(F.fam_faults(1, 3, max_faults=1, reqs='sinks', kinds=('died',), cofs=(True,)), workers=(1, 2), liveness=False)))
     else:
         cfgs = (list(F.fam_shapes(1, 5, batch=2)) + list(F.fam_shapes(1, 4, batch=3, bust=(False, True)))
                 + list(F.fam_variants(3, batch=3)) + list(F.fam_variants(2, cross=True)))
         serial = list(F.fam_shapes(1, 4, batch=1)) + list(F.fam_variants(3))
         rule = 'n<=5 shapes; n<=4 batch<=3 with bust_cache; n<=2 full cross of placement x dup x types x requests x pre-cache'
-        e3c = list(F.fam_e3(F.fam_shapes(1, 3), workers=(1, 2, None))) + list(F.fam_e3(F.fam_variants(3), workers=(2,), liveness=False))
+        e3c = (list(F.fam_e3(F.fam_shapes(1, 3), workers=(1, 2, None))) + list(F.fam_e3(F.fam_variants(3), workers=(2,), liveness=False))
+               + list(F.fam_e3(F.fam_faults(1, 3, max_faults=2, kinds=('died', 'raise'), cofs=(True,)), workers=(1, 2))))
     return run_e2_property('C03', tier, seed, cfgs, serial_configs=serial, e3_configs=e3c, hash_slices=([('shapes3', 1)] if tier == 'quick' else [('shapes3', 1), ('shapes3', 2), ('shapes4', 1)]), real_cases=list(F.fam_real(F.real_bases('plain'), workers=(2,))), rule=rule, assumptions=ASSUME)
